@@ -145,6 +145,29 @@ mod verif_c03_load {
         std::mem::forget(r);
     }
 
+    // both extensions fail, in either order: the error of higher rank survives the fold,
+    // wherever in the list it occurred (undecodable = 3 > not found = 1)
+    fn fold_case(first_bad: bool) {
+        let src = if first_bad { Tiny { present: [true, false], bytes: [0xFF, 0] } } else { Tiny { present: [false, true], bytes: [0, 0xFF] } };
+        let id = SharedString::from("a");
+        let r = load_from_source::<X2>(&src, &id);
+        match &r {
+            Ok(_) => assert!(false, "load succeeded although no declared extension is usable"),
+            Err(e) => assert!(rank_of(e) == 3, "error precedence violated: a decoding error was replaced by a not-found error"),
+        }
+        kani::cover!(true);
+        std::mem::forget(r);
+    }
+    // measured: out of memory after 595 s (io::Error bit-packed repr: drop glue and kind() fork on the pointer tag)
+    // @h name=c03_fold_bad_then_absent tier=parked timeout=600 flags=-Z+restrict-vtable
+    #[kani::proof]
+    #[kani::unwind(5)]
+    fn c03_fold_bad_then_absent() { fold_case(true) }
+    // @h name=c03_fold_absent_then_bad tier=parked timeout=600 flags=-Z+restrict-vtable
+    #[kani::proof]
+    #[kani::unwind(5)]
+    fn c03_fold_absent_then_bad() { fold_case(false) }
+
     // no extension at all: default_value alone decides
     #[derive(Clone, Copy, PartialEq, Debug)]
     struct D0(u8);
